@@ -343,8 +343,13 @@ func genSpec(t *rapid.T) caseSpec {
 	cs.CtrlID = strings.ToValidUTF8(cs.CtrlID, "?")
 	cs.CtrlSeed = rapid.SliceOfN(rapid.Byte(), 32, 32).Draw(t, "seed")
 	cs.Entropy = rapid.SliceOfN(rapid.Byte(), 32, 32).Draw(t, "entropy")
-	if rapid.Bool().Draw(t, "presetid") {
+	switch rapid.IntRange(0, 3).Draw(t, "presetid") {
+	case 0:
 		cs.AccID = strings.ToUpper(rapid.StringMatching(`[0-9a-f]{2}:[0-9a-f]{2}:[0-9a-f]{2}:[0-9a-f]{2}:[0-9a-f]{2}:[0-9a-f]{2}`).Draw(t, "accid"))
+	case 1, 2:
+		// the same accessory identity comes back with other setup codes within one process
+		// (an application that re-creates its transport with a new code)
+		cs.AccID = rapid.SampledFrom([]string{"C4:04:00:00:00:01", "C4:04:00:00:00:02"}).Draw(t, "recurring-accid")
 	}
 	cs.PrePairings = rapid.SampledFrom([]int{0, 0, 1, 3}).Draw(t, "prepair")
 	cs.SameConn = rapid.Bool().Draw(t, "sameconn")
@@ -390,6 +395,9 @@ func TestC04Prop(t *testing.T) {
 		if cs.AccID != "" {
 			cls = append(cls, "accessory-id:pre-seeded")
 		}
+		if strings.HasPrefix(cs.AccID, "C4:04") {
+			cls = append(cls, "accessory-id:recurring-with-other-code")
+		}
 		if cs.OutFrames != nil {
 			cls = append(cls, "controller-sends-short-frames")
 		}
@@ -433,6 +441,11 @@ func TestC04Regress(t *testing.T) {
 		{Code: "00102003", WrongCode: "00102004", CtrlID: "ctl", CtrlSeed: seed, Entropy: seed},
 		{Code: "31415926", CtrlID: "名前-😀", CtrlSeed: seed, Entropy: seed, AccID: "AB:CD:EF:01:23:45", PrePairings: 2, OutFrames: []int{1, 17, 1024}, Requests: []req{{"put-text", 3072}, {"get-text", 0}}},
 	}
+	cases = append(cases,
+		caseSpec{Code: "11122333", CtrlID: "first", CtrlSeed: seed, Entropy: seed, AccID: "C4:04:00:00:00:09", WrongCode: "44455666"},
+		caseSpec{Code: "44455666", CtrlID: "second", CtrlSeed: seed, Entropy: seed, AccID: "C4:04:00:00:00:09", Requests: []req{{"get-text", 0}}},
+		caseSpec{Code: "44455666", CtrlID: "third", CtrlSeed: seed, Entropy: seed, AccID: "C4:04:00:00:00:09", WrongCode: "11122333"},
+	)
 	for i, cs := range cases {
 		res, err := run(cs)
 		stats.Case(stats.Hash("regress", i), true, append(res.classes, "regress"), func() interface{} { return fmt.Sprintf("%+v", cs) })
